@@ -29,6 +29,7 @@
 
 import concurrent.futures as cf
 import os
+import re
 import shutil
 import subprocess
 import tempfile
@@ -145,7 +146,7 @@ def plan(ctx):
         # the lexical layer: keyword + every argument text over {blank, tab,
         # =, x, #, ", ', backslash} for a single-valued, a list, a
         # rest-of-line option and Host; leading blanks, CRLF, trailing blanks
-        ('lex', 'lex', dict(MaxLex=5, **smp(6 if q else 1))),
+        ('lex', 'lex', dict(MaxLex=5, **smp(8 if q else 1))),
         ('gensrv', 'srv', dict(GenSel=[4], PreSel=[0, 52],
                                TgtSel=[1, 2, 3, 9, 12])),
         # value classes: the same option twice (every ordered pair of: ordinary
@@ -508,6 +509,131 @@ def second_opinion(ctx, cd, menu, cases, root, limit, label):
                      f'{failed} not answered (of {len(todo)} sampled cases)')
 
 
+# lines written out by hand: (line(s), option looked at, what ssh and the rule
+# give, target).  Three-way: only rule == ssh != asyncssh is a violation.
+LEX_HAND = [
+    ('IdentityFile /k/id_ed25519#work', 'IdentityFile', ['/k/id_ed25519#work']),
+    ('SendEnv COLOR#fff TAG_a#b', 'SendEnv', ['COLOR#fff', 'TAG_a#b']),
+    ('Host web#1 db\n  HostKeyAlias hit', 'HostKeyAlias@web', None),
+    ('Host web#1 db\n  HostKeyAlias hit', 'HostKeyAlias@db', 'hit'),
+    ('Host web#1 db\n  HostKeyAlias hit', 'HostKeyAlias@web#1', 'hit'),
+    ('HostKeyAlias "a#b"', 'HostKeyAlias', 'a#b'),
+    ("HostKeyAlias 'a #b'", 'HostKeyAlias', 'a #b'),
+    ('HostKeyAlias=a#', 'HostKeyAlias', 'a#'),
+    ('HostKeyAlias\t=\t a#b  ', 'HostKeyAlias', 'a#b'),
+    ('RemoteCommand echo a#b # c', 'RemoteCommand', 'echo a#b # c'),
+    ('IdentityFile /k/' + 'x' * 20000 + '#y', 'IdentityFile',
+     ['/k/' + 'x' * 20000 + '#y']),
+]
+# where the pinned tree deliberately differs from ssh (observations only):
+# a word that BEGINS with '#' after the arguments is a comment for ssh and an
+# argument ("extra data") for asyncssh
+LEX_OBSERVE = [
+    ('HostKeyAlias a # comment', 'HostKeyAlias'),
+    ('SendEnv A # B', 'SendEnv'),
+    ('Port 22 #x', 'Port'),
+    ('Host x # y\n  HostKeyAlias hit', 'HostKeyAlias'),
+    ('HostKeyAlias a\\ b', 'HostKeyAlias'),
+]
+
+
+def lex_hand_cases(ctx, cd, rep, root):
+    from asyncssh.config import SSHClientConfig
+    d = os.path.join(root, 'lexhand')
+    os.makedirs(d, exist_ok=True)
+    cfg = os.path.join(d, 'cfg')
+
+    def both(text, opt):
+        opt, _, target = opt.partition('@')
+        target = target or 'db'
+        with open(cfg, 'w') as f:
+            f.write(text + '\n')
+        try:
+            c = SSHClientConfig.load(None, [cfg], False, False, False,
+                                     cd.LOCAL_USER, (), target, ())
+            got = c.get(opt)
+        except Exception as exc:        # pylint: disable=broad-except
+            got = f'{type(exc).__name__}'
+        so = None
+        try:
+            p = subprocess.run(['ssh', '-G', '-F', cfg, target],
+                               stdout=subprocess.PIPE, stderr=subprocess.PIPE,
+                               timeout=20)
+            if p.returncode == 0:
+                vals = [l.partition(' ')[2] for l in
+                        p.stdout.decode().splitlines()
+                        if l.startswith(opt.lower() + ' ')]
+                vals = [v for v in vals if not v.startswith('~/.ssh/id_')]
+                so = vals if opt in ('IdentityFile', 'SendEnv') else \
+                    (vals[0] if vals else None)
+                if opt == 'Port' and so is not None:
+                    so = int(so)
+            else:
+                so = 'error'
+        except (OSError, subprocess.TimeoutExpired):
+            pass
+        return got, so
+    for text, opt, want in LEX_HAND:
+        got, so = both(text, opt)
+        ctx.count(('lexhand', text[:60], opt))
+        shown = text if len(text) < 200 else text[:60] + '...(20 kB)'
+        if so is not None and so != want:
+            ctx.divergence(f'lex hand case {shown!r} {opt}: ssh -G gives '
+                           f'{str(so)[:80]!r}, the rule {str(want)[:80]!r}')
+        elif got != want:
+            rep.violation({'module': 'Config', 'line': shown, 'option': opt},
+                          f'config line {shown!r}: ssh and the rule give '
+                          f'{opt} = {str(want)[:80]!r}, asyncssh gives '
+                          f'{str(got)[:80]!r}',
+                          {'kind': 'lexhand', 'text': shown})
+    obs = []
+    for text, opt in LEX_OBSERVE:
+        got, so = both(text, opt)
+        ctx.count(('lexobserve', text, opt))
+        if got != so:
+            obs.append(f'{text!r}: ssh {so!r}, asyncssh {got!r}')
+    if obs:
+        ctx.notes.append('OBSERVATION (pinned tree differs from ssh on purpose,'
+                         ' not judged): ' + '; '.join(obs))
+    shutil.rmtree(d, ignore_errors=True)
+
+
+def lex_second_opinion(ctx, cd, cases, root, limit):
+    """ssh -G on a sample of the lexical cases.  The model follows the pinned
+    tree (shlex); where ssh cuts a line differently that is an observation."""
+    step = max(1, len(cases) // limit)
+    todo = cases[::step][:limit]
+    agree = 0
+    differ = {}
+
+    def one(i):
+        kind, text, wants, arg = todo[i]
+        w = cd.World(os.path.join(root, f'lx{i % 8}_{i}'))
+        try:
+            return [cd.lex_ssh(w, kind, text, t) for t in
+                    (cd.LEX_TARGETS if kind == 'host' else ('x',))], \
+                wants, arg
+        finally:
+            shutil.rmtree(w.root, ignore_errors=True)
+    with cf.ThreadPoolExecutor(max_workers=6) as ex:
+        for so, wants, arg in ex.map(one, range(len(todo))):
+            if any(x is None for x in so):
+                continue
+            if [tuple(x) for x in so] == [tuple(x) for x in wants]:
+                agree += 1
+            else:
+                why = ('# begins a word' if re.search(r'(^|[ \t=])#', arg)
+                       else 'backslash' if '\\' in arg
+                       else 'quotes' if '"' in arg or "'" in arg
+                       else '= / empty value' if '=' in arg or not arg.strip()
+                       else 'other')
+                differ[why] = differ.get(why, 0) + 1
+    ctx.notes.append(f'ssh -G on {len(todo)} lexical cases: {agree} cut the '
+                     f'line like the pinned tree; differences by feature '
+                     f'(observations, the model follows the pinned tree): '
+                     f'{differ}')
+
+
 def echo_cases(ctx, cd, rep, root):
     """Token expansion as real ssh does it, three-way."""
     from asyncssh.config import SSHClientConfig
@@ -709,6 +835,7 @@ def _main(ctx, cd, root):
             # hand-written cases first: their reports are the clearest
             echo_cases(ctx, cd, rep, root)
             glob_order_case(ctx, cd, rep, root)
+            lex_hand_cases(ctx, cd, rep, root)
         cases = [r for r in recs[1:] if r and r[0] == mode]
         ctx.require(len(cases) == res.distinct,
                     f'{name}: parsed {len(cases)} case lines, TLC reports '
@@ -729,6 +856,7 @@ def _main(ctx, cd, root):
                    300 if quick else 3000, 'value-class programs')
 
     rep.connector.close()
+    lex_second_opinion(ctx, cd, rep.lex_second, root, 150 if quick else 2500)
     ctx.notes.append(f'{rep.resolved} cases also resolved through '
                      f'asyncssh.connect() (canonicalisation and second pass '
                      f'by the library)')
@@ -787,6 +915,14 @@ def _main(ctx, cd, root):
         'first-value-wins fields each (a later line can fill the field the '
         'first line left open); the rule here is first obtained LINE wins, '
         'as asyncssh does; those mixed pairs are not compared with ssh -G',
+        'lexical layer: the model is the pinned tree (line.strip(), POSIX '
+        'shlex without comments, then the = spellings; RemoteCommand / '
+        'ProxyCommand take the rest of the line verbatim); ssh cuts some '
+        'lines differently on purpose-built differences of asyncssh: a word '
+        'BEGINNING with # after the arguments is a comment for ssh and extra '
+        'data for asyncssh, backslash and quote corner cases - these are '
+        'counted per feature in the notes (observations), not judged; a # '
+        'inside a word is a word character for both (hand cases, three-way)',
         'expansion rule: one left-to-right pass (ssh percent_dollar_expand; '
         'ssh -G prints IdentityAgent / ForwardAgent already expanded, which is '
         'used as is); RemoteCommand / ProxyCommand are compared with the rule '
